@@ -1059,6 +1059,12 @@ func (val Value) HasElement(elem Value) Value {
 		// the set then they must match for the element to be present, because
 		// a set can't contain elements of any other type than its element type.
 		if !elem.Type().Equals(val.ty.ElementType()) {
+			if !elem.IsWhollyKnown() && elem.Type().HasDynamicTypes() && len(val.ty.ElementType().TestConformance(elem.Type())) == 0 {
+				// The type of a value that isn't wholly known yet is only a
+				// constraint while it still contains dynamic placeholders,
+				// so the final value might turn out to have the element type.
+				return unknownResult
+			}
 			return False
 		}
 	}
